@@ -88,6 +88,13 @@ func (r *Response) FetchPayload(maxPayloadSize int64) error {
 
 	stdr := r.Response
 
+	// The response to a HEAD request declares the length of the entity
+	// but never has a body.
+	if stdr.Request != nil && stdr.Request.Method == http.MethodHead {
+		r.SetPayload(nil)
+		return nil
+	}
+
 	if stdr.ContentLength > maxPayloadSize {
 		return ErrResponseEntityTooLarge
 	}
